@@ -30,6 +30,8 @@ import (
 	"go/importer"
 	"go/token"
 	"go/types"
+	"os"
+	"path/filepath"
 	"sort"
 	"strings"
 )
@@ -41,9 +43,35 @@ var cfServerFiles = []string{"handler.go", "manager_prompt.go", "manager_resourc
 	"mcp_notification.go", "notifier.go", "responder.go", "responder_json.go", "responder_sse.go", "server.go",
 	"session.go", "sse_server.go", "streamable_server.go"}
 
-type cfImporter struct{ src types.Importer }
+type cfImporter struct {
+	src   types.Importer
+	cache map[string]*types.Package // the library's own internal packages, type-checked from source
+}
+
+// the module path of /repo: its internal packages are real to the type checker (a *session.Session IS a Session).
+const cfModule = "trpc.group/trpc-go/trpc-mcp-go/"
 
 func (i cfImporter) Import(path string) (*types.Package, error) {
+	if strings.HasPrefix(path, cfModule+"internal/") {
+		if p, ok := i.cache[path]; ok {
+			return p, nil
+		}
+		dir := filepath.Join(*repo, filepath.FromSlash(strings.TrimPrefix(path, cfModule)))
+		if st, err := os.Stat(dir); err == nil && st.IsDir() {
+			sub := loadDir(dir)
+			var files []*ast.File
+			for _, n := range sub.sortedFiles() {
+				files = append(files, sub.files[n])
+			}
+			name := path[strings.LastIndex(path, "/")+1:]
+			i.cache[path] = types.NewPackage(path, name) // import cycles cannot happen in compiling code; be safe anyway
+			conf := types.Config{Importer: i, Error: func(error) {}}
+			if p, _ := conf.Check(path, sub.fset, files, nil); p != nil {
+				i.cache[path] = p
+				return p, nil
+			}
+		}
+	}
 	first := path
 	if k := strings.Index(path, "/"); k >= 0 {
 		first = path[:k]
@@ -81,7 +109,7 @@ func cfLoad(root *pkgSrc) *cfPkg {
 	for _, n := range root.sortedFiles() {
 		files = append(files, root.files[n])
 	}
-	conf := types.Config{Importer: cfImporter{importer.ForCompiler(root.fset, "source", nil)}, Error: func(error) {}}
+	conf := types.Config{Importer: cfImporter{importer.ForCompiler(root.fset, "source", nil), map[string]*types.Package{}}, Error: func(error) {}}
 	pkg, _ := conf.Check("mcp", root.fset, files, info)
 	c := &cfPkg{root: root, info: info, pkg: pkg}
 	if pkg != nil {
@@ -1214,6 +1242,17 @@ func genCtxFlow(root *pkgSrc) {
 	fmt.Fprintf(&b, "/-- legacy SSE keeps ONE context function (`WithSSEContextFunc` overwrites: the last option wins). Writers found: %s -/\ndef cfSSESingleCtxFunc : Bool := %s\n", cfCmt(strings.Join(sseWriters, " | ")), leanBool(sseSingle))
 	fmt.Fprintf(&b, "/-- `SSEServer.handleMessage` applies the context function to the POST it is serving (not to the stream's GET) and passes the result on. -/\ndef cfSSEAppliesToPost : Bool := %s\n", leanBool(ssePost))
 	fmt.Fprintf(&b, "/-- `createSessionContext` adds session, server and client session to the context it is given. -/\ndef cfSSEInjects : Bool := %s\n", leanBool(sseInject))
+	b.WriteString("/-- How the session a request is processed with is found: (function, verdict). delegates = the adapter has no state of its own and returns the manager's answer; guarded-map-read = one read of the id-keyed map under the manager's lock, returned as read; own-header = handlePost looks up under the request's own Mcp-Session-Id header and hands on exactly that session; keyed-load = one sync.Map Load under the request's own sessionId parameter. -/\n")
+	b.WriteString("def cfSessionLookups : List (List Nat × List Nat) := [\n")
+	lookups := cfSessionLookups(root)
+	for i, l := range lookups {
+		sep := ","
+		if i == len(lookups)-1 {
+			sep = ""
+		}
+		fmt.Fprintf(&b, "  %s%s  -- %s: %s\n", cfTuple(l[0], l[1]), sep, l[0], cfCmt(l[1]))
+	}
+	b.WriteString("]\n")
 	b.WriteString("\nend Mcp.Gen\n")
 	writeIfChanged("CtxFlow.lean", b.String())
 }
@@ -1253,4 +1292,397 @@ func cfLocalRoot(c *cfPkg, e ast.Expr, fd *ast.FuncDecl) bool {
 	}
 	// a local that aliases something reachable from outside (x := m.field) is not tracked: only values built here
 	return true
+}
+
+// ---- session lookup: which session object a request is processed with
+//
+// cfSessionLookups: (function, verdict) for every step between "the id the request carries" and "the session object
+// put into its context". The good verdicts say: the session is found by ONE read of the id-keyed registry under its
+// lock (or one sync.Map Load), under the id of the request being served, and nothing is remembered outside that
+// registry (no "last lookup" cache, no per-server current session). Anything else is "unknown: …".
+
+// cfRecvName: the receiver identifier of a method.
+func cfRecvName(fd *ast.FuncDecl) string {
+	if fd == nil || fd.Recv == nil || len(fd.Recv.List) != 1 || len(fd.Recv.List[0].Names) != 1 {
+		return ""
+	}
+	return fd.Recv.List[0].Names[0].Name
+}
+
+// cfRecvFields: the set of fields selected on the receiver inside the body (recv.X).
+func cfRecvFields(fd *ast.FuncDecl, recv string) []string {
+	set := map[string]bool{}
+	ast.Inspect(fd.Body, func(n ast.Node) bool {
+		if sel, ok := n.(*ast.SelectorExpr); ok {
+			if id, ok := sel.X.(*ast.Ident); ok && id.Name == recv {
+				set[sel.Sel.Name] = true
+			}
+		}
+		return true
+	})
+	var l []string
+	for k := range set {
+		l = append(l, k)
+	}
+	sort.Strings(l)
+	return l
+}
+
+// cfDefsOf: the right-hand sides assigned to identifier `name` anywhere in the body (":=", "=", var), as squashed text;
+// for a multi-value assignment from one call the text is "<i>#<call>".
+func cfDefsOf(p *pkgSrc, body ast.Node, name string) []string {
+	var out []string
+	ast.Inspect(body, func(n ast.Node) bool {
+		switch x := n.(type) {
+		case *ast.AssignStmt:
+			for i, l := range x.Lhs {
+				if id, ok := l.(*ast.Ident); ok && id.Name == name {
+					if len(x.Rhs) == len(x.Lhs) {
+						out = append(out, mwSquash(p.mwCodeText(x.Rhs[i])))
+					} else if len(x.Rhs) == 1 {
+						out = append(out, fmt.Sprintf("%d#%s", i, mwSquash(p.mwCodeText(x.Rhs[0]))))
+					}
+				}
+			}
+		case *ast.ValueSpec:
+			for i, id := range x.Names {
+				if id.Name == name {
+					if i < len(x.Values) {
+						out = append(out, mwSquash(p.mwCodeText(x.Values[i])))
+					} else if len(x.Values) == 0 {
+						out = append(out, "zero")
+					}
+				}
+			}
+		case *ast.RangeStmt:
+			for _, e := range []ast.Expr{x.Key, x.Value} {
+				if id, ok := e.(*ast.Ident); ok && id.Name == name {
+					out = append(out, "range#"+mwSquash(p.mwCodeText(x.X)))
+				}
+			}
+		case *ast.IncDecStmt:
+			if id, ok := x.X.(*ast.Ident); ok && id.Name == name {
+				out = append(out, "incdec")
+			}
+		case *ast.UnaryExpr:
+			if id, ok := x.X.(*ast.Ident); ok && id.Name == name && x.Op == token.AND {
+				out = append(out, "addr-taken")
+			}
+		}
+		return true
+	})
+	sort.Strings(out)
+	return out
+}
+
+func cfStructFieldNames(p *pkgSrc, typ string) (names []string, found bool) {
+	for _, fn := range p.sortedFiles() {
+		for _, d := range p.files[fn].Decls {
+			gd, ok := d.(*ast.GenDecl)
+			if !ok || gd.Tok != token.TYPE {
+				continue
+			}
+			for _, sp := range gd.Specs {
+				ts := sp.(*ast.TypeSpec)
+				st, ok := ts.Type.(*ast.StructType)
+				if !ok || ts.Name.Name != typ {
+					continue
+				}
+				found = true
+				for _, f := range st.Fields.List {
+					t := mwSquash(p.text(f.Type))
+					if len(f.Names) == 0 {
+						names = append(names, "embedded:"+t)
+					}
+					for _, n := range f.Names {
+						names = append(names, n.Name+":"+t)
+					}
+				}
+			}
+		}
+	}
+	sort.Strings(names)
+	return
+}
+
+func cfParamNames(fd *ast.FuncDecl) []string {
+	var l []string
+	for _, f := range fd.Type.Params.List {
+		for _, n := range f.Names {
+			l = append(l, n.Name)
+		}
+	}
+	return l
+}
+
+// cfAdapterLookup: sessionManagerAdapter.getSession must be `return a.manager.GetSession(id)` and the adapter must have
+// no field besides the manager.
+func cfAdapterLookup(root *pkgSrc) string {
+	fields, ok := cfStructFieldNames(root, "sessionManagerAdapter")
+	if !ok {
+		return "unknown: type sessionManagerAdapter not found"
+	}
+	if strings.Join(fields, " ") != "manager:*session.SessionManager" {
+		return "unknown: adapter fields " + cfShort(strings.Join(fields, " "))
+	}
+	fd, _ := root.funcDecl("sessionManagerAdapter.getSession")
+	recv := cfRecvName(fd)
+	if fd == nil || fd.Body == nil || recv == "" {
+		return "unknown: sessionManagerAdapter.getSession not found"
+	}
+	ps := cfParamNames(fd)
+	if len(ps) != 1 {
+		return "unknown: parameters"
+	}
+	if got := mwSquash(root.mwCodeText(fd.Body)); got != "{return"+recv+".manager.GetSession("+ps[0]+")}" {
+		return "unknown: body " + cfShort(got)
+	}
+	return "delegates"
+}
+
+// cfManagerLookup: session.SessionManager.GetSession takes the manager's lock first, reads the map once under the id it
+// was given, touches no other field, and returns what that read gave.
+func cfManagerLookup(sp *pkgSrc) string {
+	fields, ok := cfStructFieldNames(sp, "SessionManager")
+	if !ok {
+		return "unknown: type SessionManager not found"
+	}
+	holders := 0
+	for _, f := range fields {
+		t := f[strings.Index(f, ":")+1:]
+		if strings.Contains(t, "Session") {
+			holders++
+			if f != "sessions:map[string]*Session" {
+				return "unknown: manager field " + cfShort(f)
+			}
+		}
+		if strings.Contains(t, "atomic.") || strings.Contains(t, "interface{}") || t == "any" || strings.Contains(t, "sync.Map") {
+			return "unknown: manager field " + cfShort(f)
+		}
+	}
+	if holders != 1 {
+		return "unknown: manager fields " + cfShort(strings.Join(fields, " "))
+	}
+	fd, _ := sp.funcDecl("SessionManager.GetSession")
+	recv := cfRecvName(fd)
+	if fd == nil || fd.Body == nil || recv == "" {
+		return "unknown: SessionManager.GetSession not found"
+	}
+	ps := cfParamNames(fd)
+	if len(ps) != 1 || len(fd.Body.List) < 3 {
+		return "unknown: shape"
+	}
+	id := ps[0]
+	s0, s1 := mwSquash(sp.mwCodeText(fd.Body.List[0])), mwSquash(sp.mwCodeText(fd.Body.List[1]))
+	okLock := (s0 == recv+".mu.RLock()" && s1 == "defer"+recv+".mu.RUnlock()") || (s0 == recv+".mu.Lock()" && s1 == "defer"+recv+".mu.Unlock()")
+	if !okLock {
+		return "unknown: not under the manager's lock: " + cfShort(s0+" "+s1)
+	}
+	if got := strings.Join(cfRecvFields(fd, recv), ","); got != "mu,sessions" {
+		return "unknown: touches " + got
+	}
+	// the single read of the map
+	reads, val, okv := 0, "", ""
+	shape := true
+	ast.Inspect(fd.Body, func(n ast.Node) bool {
+		switch x := n.(type) {
+		case *ast.AssignStmt:
+			if len(x.Rhs) == 1 && mwSquash(sp.text(x.Rhs[0])) == recv+".sessions["+id+"]" && len(x.Lhs) == 2 && x.Tok == token.DEFINE {
+				reads++
+				val, okv = mwSquash(sp.text(x.Lhs[0])), mwSquash(sp.text(x.Lhs[1]))
+				return false
+			}
+		case *ast.SelectorExpr:
+			if mwSquash(sp.text(x)) == recv+".sessions" {
+				shape = false // a use of the map that is not the keyed read
+			}
+		case *ast.FuncLit, *ast.GoStmt:
+			shape = false
+		}
+		return true
+	})
+	if reads != 1 || !shape || val == "" || val == "_" {
+		return "unknown: map read shape"
+	}
+	if d := cfDefsOf(sp, fd.Body, val); len(d) != 1 {
+		return "unknown: " + val + " reassigned"
+	}
+	if d := cfDefsOf(sp, fd.Body, okv); len(d) != 1 {
+		return "unknown: " + okv + " reassigned"
+	}
+	nret := 0
+	good := true
+	ast.Inspect(fd.Body, func(n ast.Node) bool {
+		if r, ok := n.(*ast.ReturnStmt); ok {
+			nret++
+			if len(r.Results) != 2 {
+				good = false
+				return true
+			}
+			a, b := mwSquash(sp.text(r.Results[0])), mwSquash(sp.text(r.Results[1]))
+			if !((a == val && b == okv) || (a == "nil" && b == "false")) {
+				good = false
+			}
+		}
+		return true
+	})
+	if nret == 0 || !good {
+		return "unknown: returns something else than the map read"
+	}
+	return "guarded-map-read"
+}
+
+// cfPostLookup: handlePost processes a request with the session it looked up under the request's OWN Mcp-Session-Id
+// header (or a new / temporary one), and hands exactly that variable on.
+func cfPostLookup(root *pkgSrc) string {
+	fd, _ := root.funcDecl("httpServerHandler.handlePost")
+	recv := cfRecvName(fd)
+	if fd == nil || fd.Body == nil || recv == "" {
+		return "unknown: handlePost not found"
+	}
+	req := ""
+	for _, f := range fd.Type.Params.List {
+		if mwSquash(root.text(f.Type)) == "*http.Request" && len(f.Names) == 1 {
+			req = f.Names[0].Name
+		}
+	}
+	if req == "" {
+		return "unknown: request parameter"
+	}
+	// the lookups
+	var keys []string
+	ast.Inspect(fd.Body, func(n ast.Node) bool {
+		if call, ok := n.(*ast.CallExpr); ok {
+			if mwSquash(root.text(call.Fun)) == recv+".sessionManager.getSession" && len(call.Args) == 1 {
+				keys = append(keys, mwSquash(root.text(call.Args[0])))
+			}
+		}
+		return true
+	})
+	if len(keys) != 1 {
+		return fmt.Sprintf("unknown: %d getSession calls", len(keys))
+	}
+	if d := cfDefsOf(root, fd.Body, keys[0]); len(d) != 1 || d[0] != req+".Header.Get(httputil.SessionIDHeader)" {
+		return "unknown: lookup key " + cfShort(keys[0]+" := "+strings.Join(d, " | "))
+	}
+	// the variable handed on
+	sessVar := ""
+	for _, callee := range []string{"handlePostRequest", "handlePostNotification", "handlePostResponse"} {
+		n := 0
+		bad := false
+		ast.Inspect(fd.Body, func(nd ast.Node) bool {
+			if call, ok := nd.(*ast.CallExpr); ok && mwSquash(root.text(call.Fun)) == recv+"."+callee {
+				n++
+				if len(call.Args) == 0 {
+					bad = true
+					return true
+				}
+				last := mwSquash(root.text(call.Args[len(call.Args)-1]))
+				if sessVar == "" {
+					sessVar = last
+				} else if sessVar != last {
+					bad = true
+				}
+			}
+			return true
+		})
+		if n != 1 || bad {
+			return "unknown: " + callee + " call shape"
+		}
+	}
+	defs := cfDefsOf(root, fd.Body, sessVar)
+	want := []string{"0#" + recv + ".sessionManager.getSession(" + keys[0] + ")", recv + ".sessionManager.createSession()", "newSession()", "zero"}
+	sort.Strings(want)
+	if strings.Join(defs, " | ") != strings.Join(want, " | ") {
+		return "unknown: session variable " + cfShort(sessVar+" := "+strings.Join(defs, " | "))
+	}
+	return "own-header"
+}
+
+// cfSSELookup: legacy SSE finds the session by ONE sync.Map Load under the request's own sessionId query parameter.
+func cfSSELookup(root *pkgSrc) string {
+	fd, _ := root.funcDecl("SSEServer.getSessionFromRequest")
+	recv := cfRecvName(fd)
+	if fd == nil || fd.Body == nil || recv == "" {
+		return "unknown: getSessionFromRequest not found"
+	}
+	ps := cfParamNames(fd)
+	if len(ps) != 1 {
+		return "unknown: parameters"
+	}
+	req := ps[0]
+	if got := strings.Join(cfRecvFields(fd, recv), ","); got != "sessions" {
+		return "unknown: touches " + got
+	}
+	var loads []string
+	uses := 0
+	ast.Inspect(fd.Body, func(n ast.Node) bool {
+		switch x := n.(type) {
+		case *ast.CallExpr:
+			if mwSquash(root.text(x.Fun)) == recv+".sessions.Load" && len(x.Args) == 1 {
+				loads = append(loads, mwSquash(root.text(x.Args[0])))
+			}
+		case *ast.SelectorExpr:
+			if mwSquash(root.text(x)) == recv+".sessions" {
+				uses++
+			}
+		}
+		return true
+	})
+	if len(loads) != 1 || uses != 1 {
+		return fmt.Sprintf("unknown: %d loads, %d uses of the registry", len(loads), uses)
+	}
+	key := loads[0]
+	kd := cfDefsOf(root, fd.Body, key)
+	if len(kd) != 1 || !strings.HasSuffix(kd[0], `.Get("sessionId")`) {
+		return "unknown: lookup key " + cfShort(key+" := "+strings.Join(kd, " | "))
+	}
+	q := strings.TrimSuffix(kd[0], `.Get("sessionId")`)
+	if q != req+".URL.Query()" {
+		if qd := cfDefsOf(root, fd.Body, q); len(qd) != 1 || qd[0] != req+".URL.Query()" {
+			return "unknown: query source " + cfShort(q)
+		}
+	}
+	// every non-nil session returned is the type assertion of the loaded value
+	good, nret := true, 0
+	why := ""
+	ast.Inspect(fd.Body, func(n ast.Node) bool {
+		r, ok := n.(*ast.ReturnStmt)
+		if !ok {
+			return true
+		}
+		nret++
+		if len(r.Results) != 2 {
+			good = false
+			return true
+		}
+		a := mwSquash(root.text(r.Results[0]))
+		if a == "nil" {
+			return true
+		}
+		d := cfDefsOf(root, fd.Body, a)
+		if len(d) != 1 || !strings.HasPrefix(d[0], "0#") || !strings.HasSuffix(d[0], ".(*sseSession)") {
+			good, why = false, a+" := "+strings.Join(d, " | ")
+			return true
+		}
+		v := strings.TrimSuffix(strings.TrimPrefix(d[0], "0#"), ".(*sseSession)")
+		if vd := cfDefsOf(root, fd.Body, v); len(vd) != 1 || vd[0] != "0#"+recv+".sessions.Load("+key+")" {
+			good, why = false, v+" := "+strings.Join(vd, " | ")
+		}
+		return true
+	})
+	if !good || nret == 0 {
+		return "unknown: returns " + cfShort(why)
+	}
+	return "keyed-load"
+}
+
+func cfSessionLookups(root *pkgSrc) [][2]string {
+	sp := loadDir(filepath.Join(*repo, "internal", "session"))
+	return [][2]string{
+		{"SSEServer.getSessionFromRequest", cfSSELookup(root)},
+		{"httpServerHandler.handlePost", cfPostLookup(root)},
+		{"session.SessionManager.GetSession", cfManagerLookup(sp)},
+		{"sessionManagerAdapter.getSession", cfAdapterLookup(root)},
+	}
 }
